@@ -764,7 +764,7 @@ package route
 //@ spec fun depsReady() bool = counters.histogram != nil && counters.rxCounter != nil && counters.txCounter != nil && transport.cfg != nil
 //@
 //@ func (*Route).addTarget
-//@   props C02 C05 C13 C19
+//@   props C02 C04 C05 C13 C19
 //@   requires r != nil && targetURL != nil && depsReady() && routeOK(r)
 //@   assigns r.Targets, r.Targets[*], r.wTargets, Target.Weight, Target.accessRules, elems(interface{}), mapsOf(map[string][]interface{}), ioWrites, lastWrite
 //@   ensures nopanic
@@ -787,6 +787,9 @@ package route
 //@   at "r.weighTargets()" assert forall a *Route :: a != r ==> a.Targets == old(a.Targets)
 //@   // a route's own transport (host= on an https target) carries the configured upstream time limits, like the default one
 //@   ensures @C19 len(r.Targets) == len(old(r.Targets)) + 1 && r.Targets[len(r.Targets)-1].Transport != nil ==> r.Targets[len(r.Targets)-1].Transport.ResponseHeaderTimeout == transport.cfg.Proxy.ResponseHeaderTimeout && r.Targets[len(r.Targets)-1].Transport.IdleConnTimeout == transport.cfg.Proxy.IdleConnTimeout && r.Targets[len(r.Targets)-1].Transport.MaxIdleConnsPerHost == transport.cfg.Proxy.MaxConn && isMethodValue(r.Targets[len(r.Targets)-1].Transport.Dial, "(*net.Dialer).Dial") && boundRecv(r.Targets[len(r.Targets)-1].Transport.Dial, *net.Dialer).Timeout == transport.cfg.Proxy.DialTimeout && boundRecv(r.Targets[len(r.Targets)-1].Transport.Dial, *net.Dialer).KeepAlive == transport.cfg.Proxy.KeepAliveTimeout
+//@   // C04: a route that got a new target has been re-weighed - every effective weight follows from the fixed weights as they
+//@   // stand now (and no fixed weight of an existing target is ever touched here: Target.FixedWeight is outside the frame)
+//@   ensures @C04 len(r.Targets) == len(old(r.Targets)) + 1 ==> forall j int :: 0 <= j && j < len(r.Targets) ==> r.Targets[j].Weight == wexp(r.Targets, j)
 //@   // a redirect status is only ever a 3xx status: anything else in the redirect= option leaves the target a plain proxy target
 //@   ensures len(r.Targets) == len(old(r.Targets)) + 1 ==> r.Targets[len(r.Targets)-1].RedirectCode == 0 || (300 <= r.Targets[len(r.Targets)-1].RedirectCode && r.Targets[len(r.Targets)-1].RedirectCode <= 399)
 //@   loop 1 invariant forall j int :: 0 <= j && j <= rangeindex ==> !(r.Targets[j].Service == service && urlString(r.Targets[j].URL) == urlString(targetURL) && r.Targets[j].FixedWeight == fixedWeight && deepEqual(r.Targets[j].Tags, tags))
